@@ -35,7 +35,7 @@ def c_dist(name: str, version: Optional[str], reqs: List[Any], meta: bool, U) ->
     else:
         pv = U.parse_version(version)
         v, vt = f"(Some {enc440.coq_version_tok(enc440.ver_token(pv))})", c_str(str(pv))
-    return f"(mkDist {c_str(name)} {v} {vt} {c_list([c_req(r) for r in reqs])} {'true' if meta else 'false'})"
+    return f"(mkDist {c_str(name)} {v} {vt} {c_list([c_req(r) for r in reqs])} {'true' if meta else 'false'} false)"
 
 
 def c_env(markers: List[str], alphabet: List[str], xorder: List[Optional[str]]) -> str:
